@@ -410,7 +410,7 @@ def _decorator_shape(dfn: ast.FunctionDef):
         return a.args[0].arg, w
 
     direct = plain(dfn)
-    if direct is not None:
+    if direct is not None and any(isinstance(c, ast.Call) and isinstance(c.func, ast.Name) and c.func.id == direct[0] for c in ast.walk(direct[1])):
         return direct[0], [], direct[1]
     a = dfn.args
     if a.vararg or a.kwarg or a.kwonlyargs or a.posonlyargs or a.defaults:
@@ -509,6 +509,24 @@ def _apply_decorators(tree: ast.Module) -> ast.Module:
             if any(isinstance(n, ast.Name) and n.id in subst and isinstance(n.ctx, ast.Store) for n in ast.walk(w2)):
                 return None
             w2 = Sub().visit(w2)
+
+            class Fold(ast.NodeTransformer):
+                """an f-string piece that became a constant is part of the text (f'in {"Router"}' is 'in Router')"""
+                def visit_JoinedStr(self_, n):
+                    self_.generic_visit(n)
+                    parts = []
+                    for v in n.values:
+                        if isinstance(v, ast.FormattedValue) and isinstance(v.value, ast.Constant) and isinstance(v.value.value, str) and v.conversion == -1 and v.format_spec is None:
+                            v = ast.copy_location(ast.Constant(value=v.value.value), v)
+                        if isinstance(v, ast.Constant) and parts and isinstance(parts[-1], ast.Constant):
+                            parts[-1] = ast.copy_location(ast.Constant(value=parts[-1].value + v.value), parts[-1])
+                        else:
+                            parts.append(v)
+                    if len(parts) == 1 and isinstance(parts[0], ast.Constant):
+                        return ast.copy_location(parts[0], n)
+                    n.values = parts
+                    return n
+            w2 = Fold().visit(w2)
         w2.name = fdef.name
         w2.decorator_list = []
         w2.returns = fdef.returns
